@@ -31,6 +31,11 @@ def check(ctx):
         oo = ex.obj(s.value)
         if oo is not None and pmatch("MultiPriorityEncoder(self.entries, len(self.alloc))", oo.ctor):
             enc = s.value
+    # the encoder the allocator relies on: "the i-th output is the i-th free identifier, valid iff there are i+1 of them"
+    from . import c38b as _c38b
+
+    ctx.use(_c38b.ELAB)
+    _c38b.priority_tree(ctx)
     ctx.check(enc is not None, "C25.encoder", comp.site, "PEA.encoder", found="MultiPriorityEncoder(entries, ways)" if enc else "not found", required="one encoder output per alloc way over all identifiers")
     if enc is None:
         return
